@@ -2,6 +2,7 @@ import Driver.Util
 import MpcVerif.Model.Equiv
 import MpcVerif.Model.Levels
 import MpcVerif.Model.Passes
+import MpcVerif.Model.PassesWF
 
 namespace Drv.C09
 open Mpc Drv
@@ -97,7 +98,8 @@ def circLine (c : Circuit) : String :=
 /--
 * `pass <tag> <kind> <nIn> <zero> <one> <outputs> <wires> <gates>` → the graph after the
   modelled pass (`cp`, `sc`, `prune`), canonically renumbered, or the compiled circuit line
-  (`compile-yao`, `compile-gmw`); `panic` where the Go code would panic
+  (`compile-yao`, `compile-gmw`); `panic` where the Go code would panic; prefixed by `wf=<b>;`, the
+  verdict of the proved checker for the hypothesis of the pass theorem on this input graph
 * `pair <tag> <nw> <nin> <nout> <gates> <nw'> <nin'> <nout'> <gates'> <witC> <witC'> <x,x,...>`
   → `chk=<diag>;c=<C.compute x ...>;c2=<C'.compute x ...>`
 * `lvl <tag> <gmw> <nw> <nin> <nout> <gates>` → `lv=<levels>;max=<n>;width=<n>`
@@ -121,11 +123,13 @@ def handle (args : List String) : String :=
     | none => "bad-op"
     | some G =>
       match kind with
-      | "cp" => match G.constPropagate with | some G' => dumpGraph G' | none => "panic"
-      | "sc" => dumpGraph G.shortCircuitXORZero
-      | "prune" => match G.prune with | some G' => dumpGraph G' | none => "panic"
-      | "compile-yao" => match G.compile false with | some c => circLine c | none => "panic"
-      | "compile-gmw" => match G.compile true with | some c => circLine c | none => "panic"
+      | "cp" => s!"wf={G.wfCPCheck};" ++ match G.constPropagate with | some G' => dumpGraph G' | none => "panic"
+      | "sc" => s!"wf={G.wfSCCheck};" ++ dumpGraph G.shortCircuitXORZero
+      | "prune" => s!"wf={G.wfPruneCheck};" ++ match G.prune with | some G' => dumpGraph G' | none => "panic"
+      | "compile-yao" => s!"wf={G.gwfCheck};" ++
+          match G.compileChecked false with | some c => circLine c | none => "panic-or-unvalidated"
+      | "compile-gmw" => s!"wf={G.gwfCheck};" ++
+          match G.compileChecked true with | some c => circLine c | none => "panic-or-unvalidated"
       | _ => "bad-op"
   | ["lvl", _tag, gmw, nw, nin, nout, gates] =>
     match parseCircuit nw nin nout gates with
